@@ -216,6 +216,7 @@ func main() {
 	os.RemoveAll(root)
 	logger := zap.NewNop()
 	byteDiffRefusedDelete := 0
+	caseNo := 0
 	type result struct {
 		c                         config
 		out, rowsSame, schema, bs string
@@ -276,6 +277,8 @@ func main() {
 	}
 	emit := func(res result) {
 		c, out, rowsSame, schema, bs, s1 := res.c, res.out, res.rowsSame, res.schema, res.bs, res.s1
+		caseNo++
+		r.Raw(fmt.Sprintf("# case %d", caseNo))
 		lhs := fmt.Sprintf("open %d %d %d,%d,%d,%d %s %s", c.uv, c.mask, c.rows[0], c.rows[1], c.rows[2], c.rows[3], c.jm, hlib.B(c.foreign))
 		r.Emit(lhs, fmt.Sprintf("%s %d %d %s %s %s %s", out, s1.uv, s1.mask(), s1.countStr(), rowsSame, schema, bs))
 		r.Case(fmt.Sprintf("%d/%d/%v/%s/%v", c.uv, c.mask, c.rows, c.jm, c.foreign))
